@@ -49,6 +49,8 @@ func init() {
 			us = append(us, concUnits(tier)...)
 			us = append(us, worldUnits(tier)...)
 			us = append(us, reloadShapeUnits(tier)...)
+			us = append(us, hookUnits(tier)...)
+			us = append(us, wideUnits(tier)...)
 			return us
 		},
 		QuickBudget:    600,
@@ -622,6 +624,63 @@ func manyUnits(tier string) []runner.Unit {
 	return us
 }
 
+// wideUnits: more users than any fixed-width per-source bookkeeping can hold (user ids up to 140):
+// with user k cached for the source, every other user authenticates from that source with and
+// without hint, and is attributed to itself.
+func wideUnits(tier string) []runner.Unit {
+	var us []runner.Unit
+	for _, mand := range []bool{false, true} {
+		mand := mand
+		us = append(us, runner.Unit{Name: fmt.Sprintf("wide-registry-mandatory=%v", mand), Cost: 3, Run: func(u *runner.U) {
+			var all []uspec
+			for i := 0; i < 140; i++ {
+				all = append(all, passUser(fmt.Sprintf("user-%03d", i)))
+			}
+			src := source(net.IPv4(10, 4, 0, 1))
+			k := 0
+			for _, cached := range [][]int{{0}, {2}, {63}, {64}, {2, 66}, {0, 1, 2, 3, 4, 5, 6, 7, 8, 9, 10, 11, 12, 13, 14, 15}} {
+				vsched.ManualNow = 0
+				r := &serveruser.Registry{}
+				r.SetUsers(userMap(all))
+				r.SetHintMandatory(mand)
+				auth := func(uu uspec, hint string, record bool) bool {
+					k++
+					n := make([]byte, 24)
+					for i := range n {
+						n[i] = byte(k*13 + i)
+					}
+					seg := segment(uu.cred, n, hint)
+					name, meta, a, err := discover(r, seg, src, true)
+					u.Eval(1)
+					if v := judge(all, mand, uu.cred, seg[:24], name, err, meta, a.Policy()); v != "" {
+						u.Violation(signature(v), v, fmt.Sprintf("140 users, cached for the source: %v; then auth(%s, hint %q)", cached, uu.name, hint), "wide")
+						return false
+					}
+					if err == nil && record {
+						a.Record()
+					}
+					return true
+				}
+				for _, c := range cached {
+					if !auth(all[c], all[c].name, true) {
+						return
+					}
+				}
+				for _, uu := range all {
+					for _, hint := range []string{uu.name, ""} {
+						if !auth(uu, hint, false) {
+							return
+						}
+					}
+				}
+				u.Distinct(fmt.Sprint(cached))
+			}
+			u.Sample("140 registered users with distinct credentials; source cache holding users {0}, {2}, {63}, {64}, {2,66}, {0..15}; then every user x hint {own, none} from that source, not recorded")
+		}})
+	}
+	return us
+}
+
 func sortedNames(us []uspec) string {
 	var ns []string
 	for _, u := range us {
@@ -629,4 +688,90 @@ func sortedNames(us []uspec) string {
 	}
 	sort.Strings(ns)
 	return strings.Join(ns, ",")
+}
+
+// ---- reload that completes inside a discovery (the implementation's afterAttempt seam) ----
+
+// hookUnits: a discovery that must be current (requireCurrent, what the TCP underlay asks for)
+// has made its attempt on the old generation; a reload then runs to completion before the
+// implementation decides whether that generation still stands. Single goroutine, so "the reload
+// completed before the decision" is unambiguous. The decision must be the new list's.
+func hookUnits(tier string) []runner.Unit {
+	return []runner.Unit{{Name: "reload-completes-inside-discovery", Cost: 1, Run: func(u *runner.U) {
+		alice, bob, carol := passUser("alice"), passUser("bob"), passUser("carol")
+		bobNew := uspec{name: "bob", byPass: "other", cred: refwire.Cred{User: "bob", Password: "other"}.HashedPassword()}
+		bobQ := bob
+		bobQ.quota = 7
+		robert := uspec{name: "robert", byPass: "pw-bob", cred: refwire.Cred{User: "robert", Password: "pw-bob"}.HashedPassword()}
+		hb, hb2 := hashedUser("bob", 0x61), hashedUser("bob", 0x62)
+		type shape struct {
+			name        string
+			before, aft []uspec
+		}
+		shapes := []shape{
+			{"credential-rotated-same-names", []uspec{alice, bob, carol}, []uspec{alice, bobNew, carol}},
+			{"hashed-credential-rotated", []uspec{alice, hb, carol}, []uspec{alice, hb2, carol}},
+			{"user-removed", []uspec{alice, bob, carol}, []uspec{alice, carol}},
+			{"last-user-removed", []uspec{alice, bob}, []uspec{alice}},
+			{"user-renamed", []uspec{alice, bob, carol}, []uspec{alice, robert, carol}},
+			{"quota-only", []uspec{alice, bob, carol}, []uspec{alice, bobQ, carol}},
+			{"identical", []uspec{alice, bob, carol}, []uspec{alice, bob, carol}},
+			{"user-added", []uspec{alice, bob}, []uspec{alice, bob, carol}},
+		}
+		src := source(net.IPv4(10, 3, 0, 1))
+		n := 0
+		for _, sh := range shapes {
+			for _, mand := range []bool{false, true} {
+				for _, warm := range []bool{false, true} {
+					for _, hinted := range []bool{true, false} {
+						for _, requireCurrent := range []bool{true, false} {
+							vsched.ManualNow = 0
+							r := &serveruser.Registry{}
+							r.SetUsers(userMap(sh.before))
+							r.SetHintMandatory(mand)
+							who := sh.before[1] // bob (by whatever credential the old list gives him)
+							mk := func(k int) []byte {
+								nn := make([]byte, 24)
+								for i := range nn {
+									nn[i] = byte(0x40 + (k*29+i*7)%64)
+								}
+								hint := ""
+								if hinted {
+									hint = who.name
+								}
+								return segment(who.cred, nn, hint)
+							}
+							if warm {
+								if _, _, a, err := discover(r, mk(1), src, true); err == nil {
+									a.Record()
+								}
+							}
+							seg := mk(2)
+							desc := fmt.Sprintf("reload=%s hint-mandatory=%v cache-warm=%v hinted=%v requireCurrent=%v", sh.name, mand, warm, hinted, requireCurrent)
+							block, meta, auth, err := serveruser.VerifDiscoverWithHook(r, seg, src, requireCurrent, func() { r.SetUsers(userMap(sh.aft)) })
+							name := ""
+							if err == nil {
+								name = block.BlockContext().UserName
+							}
+							n++
+							u.Eval(1)
+							u.Distinct(desc)
+							if !requireCurrent {
+								// either list may decide a discovery that need not be current
+								if judge(sh.before, mand, who.cred, seg[:24], name, err, meta, auth.Policy()) == "" {
+									continue
+								}
+							}
+							if v := judge(sh.aft, mand, who.cred, seg[:24], name, err, meta, auth.Policy()); v != "" {
+								u.Violation(signature(v), "a reload completed while the discovery was between its attempt and its currentness decision: "+v, desc, desc)
+								return
+							}
+						}
+					}
+				}
+			}
+		}
+		u.Count("cases", int64(n))
+		u.Sample("8 reload shapes x hint policy x warm/cold source cache x hinted/hintless x requireCurrent: the reload runs inside the implementation's afterAttempt seam")
+	}}}
 }
